@@ -137,8 +137,9 @@ def pipeline(name, gen_cmd, stdin_path=None):
 class Tally:
     """Aggregates responses of the harness|driver pipeline."""
 
-    def __init__(self, pid, known, only_oracles=None, excluded=None):
+    def __init__(self, pid, known, only_oracles=None, excluded=None, oracle_known=None):
         self.pid = pid
+        self.oracle_known = oracle_known or {}   # oracle -> the only classes that may explain its failure
         self.only_oracles = only_oracles
         self.excluded = set(excluded or [])   # classes outside the property's input domain
         self.excluded_hits = {}
@@ -202,7 +203,12 @@ class Tally:
                 if bad:
                     hit = [c for c in classes if c in self.known_classes]
                     out = [c for c in classes if c in self.excluded]
-                    if hit:
+                    # an oracle with a restricted explanation set is only excused by those classes
+                    unexplained = [k for k in bad if k in self.oracle_known
+                                   and not (set(classes) & set(self.oracle_known[k]))]
+                    if unexplained:
+                        self.violations.append((stream, r["id"], unexplained))
+                    elif hit:
                         for c in hit:
                             self.known_hits[c] = self.known_hits.get(c, 0) + 1
                     elif out:
